@@ -22,7 +22,7 @@ while args:
 out = out or os.path.join(VERIF, "seeded", "RESULTS.json" if seed == 0 else f"RESULTS.seed{seed}.json")
 ROOT = f"/tmp/mx_{os.getpid()}"
 todo = queue.Queue()
-for d in sorted(glob.glob(os.path.join(VERIF, "seeded", "C*-*m[12]"))):
+for d in sorted(glob.glob(os.path.join(VERIF, "seeded", "C*-*m[123]"))):
     name = os.path.basename(d)
     if ids and name not in ids and name.split("-")[0] not in ids:
         continue
